@@ -29,10 +29,10 @@ OPTSETS = [[], ["-d"], ["--protonate-all"], ["-g", "0.0", "14.0", "0.5", "-w", "
 
 def generate(tier, seed):
     cases = []
-    n = 36 if tier == "quick" else 600
+    n = 36 if tier == "quick" else 3000
     for k in range(n):
         cases.append({"kind": "history", "seed": "%d:h:%d" % (seed, k), "cost": 200})
-    n = 40 if tier == "quick" else 400
+    n = 40 if tier == "quick" else 2000
     for k in range(n):
         cases.append({"kind": "layouts", "seed": "%d:l:%d" % (seed, k), "cost": 120})
     return cases
